@@ -1,11 +1,11 @@
 #!/bin/sh
-# usage: tools/seeded.sh <seeded dir, e.g. seeded/C13/1> [property ids to run; default: the property the change was written for]
+# usage: tools/seeded.sh <seeded dir, e.g. seeded/C13-1> [property ids to run; default: the property the change was written for]
 # Applies the seeded change to /repo's working tree, runs the quick checks, restores /repo, writes <dir>/result.json.
 # /repo must be clean before and is clean afterwards.
 D="$(cd "$1" && pwd)"; shift
 [ -f "$D/patch.diff" ] || { echo "no $D/patch.diff" >&2; exit 2; }
 if [ -n "$(git -C /repo status --porcelain --untracked-files=no)" ]; then echo "/repo working tree is not clean" >&2; exit 2; fi
-OWN=$(basename "$(dirname "$D")")
+OWN=$(basename "$D" | sed "s/-.*//")
 PROPS="${*:-$OWN}"
 git -C /repo apply "$D/patch.diff" || { echo "patch does not apply" >&2; exit 2; }
 trap 'git -C /repo checkout -- . ; (cd /verif/sim && CARGO_NET_OFFLINE=true cargo build --release --offline >/dev/null 2>&1)' EXIT INT TERM
